@@ -13,6 +13,7 @@ struct ModelTraits {
 	bool fancy         = false;
 	int  dmin = 1, dmax = 3;
 	bool static_arrays = false;  // slots are static_array (no resizing assignment)
+	bool throwing_move = false;  // element moves can throw (TrackedNM)
 };
 
 struct Effect {
@@ -25,6 +26,8 @@ struct Effect {
 	bool expect_no_elem_events = false;  // zero element events of any kind
 	bool expect_base_unchanged = false;  // data_elements() of target 0 unchanged
 	bool is_ctor = false, is_dtor = false;
+	bool moves_elements = false;  // elements are moved: after a failure a written element may also be left moved-from
+	std::vector<char> touched[2];  // per target: which root offsets the operation may write or move from
 	bool reads_only = false;
 	std::string variant;    // op-variant for signatures (Appendix A of DESIGN.md)
 	long elems = 0;         // elements involved (guides fault placement)
@@ -102,6 +105,8 @@ inline bool plan_effect(Model const& M, ModelTraits const& T, Op const& op, Effe
 		e.tD[k]   = D;
 		e.ti[k]   = i;
 		e.next[k] = M.at(D, i);
+		if(e.next[k].moved_from && e.probe_id < 0 && k == 0) e.probe_id = P_ASSIGN_TO_MOVED_FROM;
+		e.next[k].moved_from = false;
 		if(e.nt < k + 1) e.nt = k + 1;
 		return e.next[k];
 	};
@@ -156,6 +161,7 @@ inline bool plan_effect(Model const& M, ModelTraits const& T, Op const& op, Effe
 			int   z[MAXD]{};
 			set_dims(bn, D, z);
 			bn.v.clear();
+			bn.moved_from = true;
 			e.elems = b.count();
 			if(a.arena == b.arena) {
 				e.expect_no_alloc = e.expect_no_elem_events = true;
@@ -176,7 +182,7 @@ inline bool plan_effect(Model const& M, ModelTraits const& T, Op const& op, Effe
 			if(op.kind == O_DECAY) {
 				if(op.var < 0 || op.var > 2) return false;
 				if(op.var == 2) {
-					if(op.cb.n != 0 || op.db != D) return false;
+					if(op.cb.n != 0 || op.db != D || T.static_arrays) return false;
 					a.arena = T.soccc_default ? 0 : M.at(op.db, op.b).arena;
 					var("plus-array");
 				} else var(op.var == 0 ? "decay" : "plus-view");
@@ -274,6 +280,7 @@ inline bool plan_effect(Model const& M, ModelTraits const& T, Op const& op, Effe
 			int   z[MAXD]{};
 			set_dims(b, D, z);
 			b.v.clear();
+			b.moved_from = true;
 			if(T.pocma || a0.arena == b0.arena) {
 				e.expect_no_elem_events = a0.count() == 0;  // the old elements of the target are destroyed, nothing else
 				e.expect_no_alloc       = false;             // the old block of the target is released
@@ -313,6 +320,7 @@ inline bool plan_effect(Model const& M, ModelTraits const& T, Op const& op, Effe
 		if(!model_view(M, T, op.db, op.b, op.cb, v) || v.D != D) return false;
 		if(op.db == D && op.b == op.a) return false;  // aliasing source: documented as unprotected
 		if((op.kind == O_ASSIGN_ITER || op.kind == O_ASSIGN_RANGE) && (v.n[0] < 1 || v.count() == 0)) return false;
+		if(T.static_arrays && op.kind != O_ASSIGN_VIEW) return false;  // assign/from are members of the resizable array only
 		if(op.var < 0 || op.var > 1) return false;
 		MArr const& a0   = M.at(D, op.a);
 		bool const  same = dims_equal(a0, D, v.n);
@@ -471,6 +479,16 @@ inline bool plan_effect(Model const& M, ModelTraits const& T, Op const& op, Effe
 		e.expect_no_alloc = e.expect_base_unchanged = true;
 		if(same_root) { var("same-root"); e.probe_id = P_VIEW_SAME_ROOT; }
 		if(dv.count() == 0) var("empty");
+		if(op.kind == O_VSWAP || (op.kind == O_VASSIGN_VIEW && op.var == 2)) {
+			e.moves_elements = true;
+			e.touched[0].assign(ra.v.size(), 0);
+			for(int q : dv.off) e.touched[0][static_cast<std::size_t>(q)] = 1;
+			if(same_root) for(int q : sv.off) e.touched[0][static_cast<std::size_t>(q)] = 1;
+			else {
+				e.touched[1].assign(rb.v.size(), 0);
+				for(int q : sv.off) e.touched[1][static_cast<std::size_t>(q)] = 1;
+			}
+		}
 		if(op.kind == O_VSWAP) {
 			MArr* b = same_root ? &a : &tgt(1, op.db, op.b);
 			e.viewwrite[1] = true;
@@ -560,8 +578,8 @@ inline bool plan_effect(Model const& M, ModelTraits const& T, Op const& op, Effe
 	case O_COMPARE: {
 		MView x, y;
 		if(!model_view(M, T, op.da, op.a, op.ca, x) || !model_view(M, T, op.db, op.b, op.cb, y)) return false;
-		if(x.D != y.D) return false;
-		if(x.count() == 0 || y.count() == 0) return false;  // empties: C07 territory
+		if(!x.same_extents(y)) return false;  // operands of different shape are C07 territory (and mis-compare at the pinned commit, DESIGN 9)
+		if(x.count() == 0 || y.count() == 0) return false;
 		e.reads_only = true;
 		e.elems      = x.count();
 		e.expect_no_alloc = true;
